@@ -10,7 +10,7 @@ from typing import Dict, List, Optional, Set
 
 from ..program import AnalysisError, FunctionInfo, fn_nodes, norm
 from ..cfg import cfg_of
-from .common import JWE_CONSUME, JWE_PRODUCE, can_reach_exit, const_value, entries, impls, is_const, scope_of, sites_calling, succ_by_label
+from .common import resolve_all, find_local, JWE_CONSUME, JWE_PRODUCE, can_reach_exit, const_value, entries, impls, is_const, scope_of, sites_calling, succ_by_label
 
 RFC7516_TOP = {"protected", "unprotected", "iv", "aad", "ciphertext", "tag"}
 RFC7516_RCP = {"header", "encrypted_key"}
@@ -197,12 +197,17 @@ def r04_3(ctx) -> None:
     ok = len(joins) == 1 and isinstance(joins[0].args[0], (ast.List, ast.Tuple)) and len(joins[0].args[0].elts) == 5
     if ok:
         el = [norm(x) for x in joins[0].args[0].elts]
-        ok = el[0].endswith("base64_segments['aad']") and el[1] == "urlsafe_b64encode(encrypted_key)" and el[2].endswith("base64_segments['iv']") \
+        el[1] = resolve_all(eng, rep, joins[0].args[0].elts[1])[0]
+        ok = el[0].endswith("base64_segments['aad']") and el[1].startswith("urlsafe_b64encode(") and el[1].endswith(".recipient.encrypted_key)") and el[2].endswith("base64_segments['iv']") \
             and el[3].endswith("base64_segments['ciphertext']") and el[4].endswith("base64_segments['tag']")
     ctx.check(ok, "R04.3", rep, rep.node, "compact writer", "represent_compact does not emit header.encrypted_key.iv.ciphertext.tag", "five segments in RFC 7516 section 7.1 order", construct="compact writer order")
     unp = [n for n in fn_nodes(ext) if isinstance(n, ast.Assign) and isinstance(n.targets[0], ast.Tuple) and len(n.targets[0].elts) == 5]
-    oke = len(unp) == 1 and [norm(x) for x in unp[0].targets[0].elts] == ["header_segment", "ek_segment", "iv_segment", "ciphertext_segment", "tag_segment"] and norm(unp[0].value) == "parts"
-    lens = [n for n in fn_nodes(ext) if isinstance(n, ast.Compare) and norm(n.left) == "len(parts)" and const_value(n.comparators[0]) == 5]
+    vp_ = ext.pos_params[0]
+    SPLIT = f"{vp_}.split(b'.')"
+    oke = len(unp) == 1 and all(isinstance(x, ast.Name) for x in unp[0].targets[0].elts) and resolve_all(eng, ext, unp[0].value) == [SPLIT]
+    T = [x.id for x in unp[0].targets[0].elts] if oke else ["\0"] * 5
+    oke = oke and len(set(T)) == 5
+    lens = [n for n in fn_nodes(ext) if isinstance(n, ast.Compare) and resolve_all(eng, ext, n.left) == [f"len({SPLIT})"] and const_value(n.comparators[0]) == 5]
     # each named segment lands in the matching slot
     slots = {}
     for n in fn_nodes(ext):
@@ -210,9 +215,12 @@ def r04_3(ctx) -> None:
             for k, v in zip(n.keys, n.values):
                 if k is not None and isinstance(k, ast.Constant):
                     slots.setdefault(k.value, set()).add(norm(v))
-    okm = slots.get("aad") == {"header_segment"} and slots.get("iv") == {"iv_segment", "urlsafe_b64decode(iv_segment)"} and \
-        slots.get("ciphertext") == {"ciphertext_segment", "urlsafe_b64decode(ciphertext_segment)"} and slots.get("tag") == {"tag_segment", "urlsafe_b64decode(tag_segment)"}
-    eks = [n for n in fn_nodes(ext) if isinstance(n, ast.Assign) and norm(n.targets[0]).endswith(".encrypted_key") and norm(n.value) == "urlsafe_b64decode(ek_segment)"]
+    okm = slots.get("aad") == {T[0]} and slots.get("iv") == {T[2], f"urlsafe_b64decode({T[2]})"} and \
+        slots.get("ciphertext") == {T[3], f"urlsafe_b64decode({T[3]})"} and slots.get("tag") == {T[4], f"urlsafe_b64decode({T[4]})"}
+    eks = [n for n in fn_nodes(ext) if isinstance(n, ast.Assign) and norm(n.targets[0]).endswith(".encrypted_key") and norm(n.value) == f"urlsafe_b64decode({T[1]})"]
+    # and the protected header is decoded from the first segment
+    hdr = [n for n in fn_nodes(ext) if isinstance(n, ast.Call) and norm(n.func) == "json_b64decode" and n.args and norm(n.args[0]) == T[0]]
+    okm = okm and bool(hdr)
     ctx.check(oke and bool(lens) and okm and bool(eks), "R04.3", ext, ext.node, "compact reader", "extract_compact does not read the five segments into the matching slots", "header, encrypted key, iv, ciphertext, tag",
               construct="compact reader order")
 
@@ -226,7 +234,9 @@ def r04_4(ctx) -> None:
     if h is None or ah is None:
         raise AnalysisError("Recipient.headers / add_header vanished")
     cfg = cfg_of(h)
-    ups = [n for n in fn_nodes(h) if isinstance(n, ast.Call) and isinstance(n.func, ast.Attribute) and n.func.attr == "update" and norm(n.func.value) == "rv"]
+    rets_h0 = [r.value for r in fn_nodes(h) if isinstance(r, ast.Return) and r.value is not None]
+    rv0 = rets_h0[0].id if len(rets_h0) == 1 and isinstance(rets_h0[0], ast.Name) else "\0"
+    ups = [n for n in fn_nodes(h) if isinstance(n, ast.Call) and isinstance(n.func, ast.Attribute) and n.func.attr == "update" and norm(n.func.value) == rv0]
     order = []
     for u in sorted(ups, key=lambda x: x.lineno):
         a = norm(u.args[0])
@@ -236,7 +246,9 @@ def r04_4(ctx) -> None:
         nodes = [cfg.node_of(u) for u in sorted(ups, key=lambda x: x.lineno)]
         ok = all(n is not None for n in nodes) and nodes[1] in cfg.reachable(nodes[0]) and nodes[2] in cfg.reachable(nodes[1]) \
             and nodes[0] not in cfg.reachable(nodes[1]) and cfg.must_pass(cfg.entry, cfg.exit, [nodes[0]])
-    fresh = [d for d in eng.flow._defs(h).get("rv", []) if d[0] == "assign"]
+    rets_h = [r.value for r in fn_nodes(h) if isinstance(r, ast.Return) and r.value is not None]
+    rvn = rets_h[0].id if len(rets_h) == 1 and isinstance(rets_h[0], ast.Name) else "\0"
+    fresh = [d for d in eng.flow._defs(h).get(rvn, []) if d[0] == "assign"]
     ok = ok and len(fresh) == 1 and isinstance(fresh[0][1], ast.Dict) and not fresh[0][1].keys
     ctx.check(ok, "R04.4", h, h.node, h.short, f"Recipient.headers does not merge protected, then shared unprotected, then per-recipient members into a fresh dict (order {order})",
               "rv = {}; update(protected); update(unprotected); update(header)", construct="header merge order")
